@@ -428,6 +428,21 @@ func (e *env) run(kind string) (bool, string) {
 			return false, "wrongreply"
 		}
 		return ok, "served"
+	case "srvBwDownRetry":
+		// the peer asks for a large resource, abandons the transfer after the first block and asks again with the SAME
+		// token (new message ID, no Block2): the response of the first request is still held under that token
+		tok := []byte{0x5d, byte(e.n)}
+		ok := true
+		for k := 0; k < 2; k++ {
+			from := e.u.Sess.OutLen()
+			e.inject(message.Confirmable, codes.GET, e.nextMID(), tok, message.Options{{ID: message.URIPath, Value: []byte("big")}}, nil)
+			ok = hooks.WaitFor(conns.WD, func() bool { return e.u.Sess.OutLen() > from }) && ok
+		}
+		e.scan()
+		for i := range e.reqs {
+			e.taken[i] = true
+		}
+		return ok, "served"
 	case "srvReq", "srvReqNon", "srvReqNoResp", "srvBwUpAbandon", "srvBwDownAbandon":
 		tok := []byte{0x5e, byte(e.n)}
 		mid := e.nextMID()
